@@ -73,7 +73,7 @@ def run(chk):
     cases, meta = gen(chk, 300 if chk.tier == 'thorough' else 30)
     _, il, _ = vlib.run_pair(None, w, cases, timeout=2400)
     ml, _, _ = vlib.run_pair(mexe, None, [l or 'x' for l in il], timeout=2400)
-    classes, ndis, dist = set(), 0, {}
+    classes, ndis, dist, pstat = set(), 0, {}, {}
     for c, mt, i, m in zip(cases, meta, il, ml):
         dist[mt['font']] = dist.get(mt['font'], 0) + 1
         if i is None:
@@ -96,29 +96,27 @@ def run(chk):
         if head[1] in ('NOFACE', 'NULLSEG'):
             continue
         bad = [p for p in parts[1:] if p.startswith('just ') and p.split()[1] not in ('ok', 'skip')]
+        # the pointer-level model (Model/LinePtrModel.v) replays the recorded events of this very run over the links: 'ok' means that every
+        # snapshot of the real links is what the code AS RECORDED does to them (including its recorded defects)
+        pm = (m or '').split(' | P ', 1)[1].split()[0] if ' | P ' in (m or '') else 'none'
         if bad:
-            # which line was being justified and which line came out damaged: the recorded defects reverse the chain headed by the
-            # segment's first slot (F15: the first line, whichever line is justified) or by the justified line's head (F16: that line)
-            jops = [o for o in c.split()[10:] if o.startswith('just:')]
-            jres = [p for p in parts[1:] if p.startswith('just ')]
-            li = bl = None
-            for o, p in zip(jops, jres):
-                if p.split()[1] not in ('ok', 'skip'):
-                    v = p.split()[1]
-                    try:
-                        li = int(o.split(':')[1]); bl = int(v[4:v.index(':')])
-                    except ValueError:
-                        pass
-                    break
-            expected = kc is not None and li is not None and (bl == li or (bl == 0 and kc == 'justify-reverses-when-direction-differs-from-font'))
+            # damage is a known finding only when (1) the call lies in a recorded trigger class and (2) the faithful model of the recorded
+            # code reproduces the damaged links exactly; damage it does not reproduce is a different defect, whatever the trigger
+            expected = kc is not None and pm == 'ok'
             key = 'c19:' + kc if expected else 'c19:%s:%s' % (bad[0].split()[1].split('(')[0], ' '.join(c.split()[2:14])[:160])
-            chk.violation(key, 'after linebreak/justify a line is no longer the same well-formed chain: %s%s' % (bad[0][:120], '' if expected or kc is None else
-                          ' (justifying line %s damaged line %s: not the signature of the recorded defect)' % (li, bl)), dict(case=c, got=i[:1500]))
-        mres = (m or '').split()
+            chk.violation(key, 'after linebreak/justify a line is no longer the same well-formed chain: %s%s' % (bad[0][:120], '' if expected else
+                          (' (the links differ from what the recorded code does to them: %s)' % (m or '').split(' | P ', 1)[-1][:300] if pm != 'ok' else ' (outside the recorded trigger classes)')),
+                          dict(case=c, got=i[:1500]))
+        elif pm not in ('ok', 'none'):
+            ndis += 1
+            chk.tie_break('correspondence:line-links', 'the slot links after linebreak / justify differ from Model/LinePtrModel.v although every line is intact: %s' % (m or '').split(' | P ', 1)[-1][:400], c[:300])
+        pstat['%s %s %s' % ('damaged' if bad else 'intact', 'known-class' if kc else 'no-class', pm)] = pstat.get('%s %s %s' % ('damaged' if bad else 'intact', 'known-class' if kc else 'no-class', pm), 0) + 1
+        mres = (m or '').split(' | P ')[0].split()
         if kc is None and (len(mres) < 3 or mres[2] not in ('ok', 'none')):
             ndis += 1
             chk.tie_break('correspondence:lines', 'replay through Model/LineModel.v diverges where no reversal is expected: %s' % (m or '')[:500], c[:300])
         classes.add((mt['font'], mt['dir'], min(mt['nb'], 3), bool(bad), kc is not None))
+    dist.update({'ptr-model: ' + k: v for k, v in pstat.items()})
     chk.cov.update(evaluations=len(cases), distinct_nontrivial=len(classes), disagreements_checked=ndis, distribution=dist,
                    rule='segments over the 16 shipped fonts (dir 0..7, with/without gr_font) cut at every subset of interior positions (short texts) or random positions, each line justified '
                         '1-4 times with widths {-1,0,300,1000,3000,1e6,2500.5}, flags 0..3, optional pFirst/pLast; per-line oracle (same slots, same order, prev inverse, finite) and replay of the '
